@@ -216,6 +216,9 @@ op('lag', lambda c, n: rs.data.lag(n), lambda n: M.Lag(n))
 op('pad_start', lambda c, n, v=None: rs.data.pad_start(n, v), lambda n, v=None: M.PadStart(n, v))
 op('pad_end', lambda c, n, v=None: rs.data.pad_end(n, v), lambda n, v=None: M.PadEnd(n, v))
 op('start_with', lambda c, p: rs.ops.start_with(list(p)), lambda p: M.StartWith(list(p)))
+# the padding given as another iterable than a list (the items are what iterating it yields)
+PADDINGS = {'tuple': lambda: (7, 8), 'range': lambda: range(2), 'str': lambda: 'ab', 'deque': lambda: __import__('collections').deque([7, 8])}
+op('start_with_as', lambda c, kind: rs.ops.start_with(PADDINGS[kind]()), lambda kind: M.StartWith(list(PADDINGS[kind]())))
 op('batch', lambda c, n: rs.data.batch(n), lambda n: M.Batch(n))
 op('sort', lambda c, f=None, rev=False: rs.data.sort(key=F(f) or (lambda i: i), reverse=rev),
    lambda f=None, rev=False: M.Sort(F(f), rev))
